@@ -200,6 +200,9 @@ func GenLogoutCase(r *rand.Rand, w *World, isResp bool) (*LogoutCase, error) {
 		l.Sig = randSigSpec(r, ac, true, false)
 		l.Sig.Cert = lc.Signer
 	}
+	if l.Sig != nil && st.DeclareDS && l.Sig.DSPrefix == "" && !l.Sig.DSDefault {
+		l.Sig.NoNSDecl = true // the ds prefix is declared on the root element only, the Signature element inherits it
+	}
 	x, err := sim.BuildLogout(l, st)
 	if err != nil {
 		return nil, err
